@@ -72,13 +72,24 @@ def Obj.bps (o : Obj) : List Nat :=
 def Obj.logLik (o : Obj) : Float :=
   match o.core with | .resc r => r.fw.logLik | .low l => l.logLik | .log g => g.fw.ll
 
+/-- a built-in transition model: the auto-correlation one is modelled (`Hmm.AutoTM`); the full one
+(rows = C19 simplices, equilibrium = row 0 of P^256 by C04's `pow`) is not — its answers are echoed
+and only judged (row-stochastic, stationary, independent of the order of queries) -/
+inductive TM where
+  | auto (m : AutoTM Float)
+  | full (n : Nat) (lastP : Option (Array Float)) (seenPij seenEq : Option (List String))
+
 structure St where
   stage : DTables := {}
   objs : List (String × Obj) := []
+  tms : List (String × TM) := []
 
 def St.get? (s : St) (k : String) : Option Obj := (s.objs.find? (·.1 == k)).map (·.2)
 def St.put (s : St) (k : String) (o : Obj) : St := { s with objs := (k, o) :: s.objs.filter (·.1 != k) }
 def St.del (s : St) (k : String) : St := { s with objs := s.objs.filter (·.1 != k) }
+
+def St.getTM? (s : St) (k : String) : Option TM := (s.tms.find? (·.1 == k)).map (·.2)
+def St.putTM (s : St) (k : String) (m : TM) : St := { s with tms := (k, m) :: s.tms.filter (·.1 != k) }
 
 def hx (x : Float) : String := Hex.ofFloatCanon x
 def hxs (l : List Float) : String := if l.isEmpty then "-" else " ".intercalate (l.map hx)
@@ -335,6 +346,110 @@ def derivVerdict (o : Obj) (impl : List String) (var : String) (order : Nat) : S
           else if order == 1 then "FAIL:derivative1" else "FAIL:derivative2"
   | _ => "FAIL:parse"
 
+/-! ## built-in transition models -/
+
+def rowsOfFlat (n : Nat) (xs : List Float) : List (List Float) :=
+  (List.range n).map (fun i => (xs.drop (i * n)).take n)
+
+/-- rows ≥ 0 summing to 1 -/
+def stochasticRows (n : Nat) (xs : List Float) : Bool :=
+  xs.length == n * n && (rowsOfFlat n xs).all (fun r => r.all (fun x => x ≥ 0.0) && Float.abs (r.foldl (· + ·) 0.0 - 1.0) ≤ 1e-12)
+
+/-- a probability vector with `π·P = π` (to 1e-9) -/
+def stationaryOf (n : Nat) (P : List Float) (pi : List Float) : Bool :=
+  pi.length == n && pi.all (fun x => x ≥ 0.0) && Float.abs (pi.foldl (· + ·) 0.0 - 1.0) ≤ 1e-9 &&
+  (List.range n).all (fun j =>
+    let v := (List.range n).foldl (fun a k => a + (pi.getD k 0.0) * (P.getD (k * n + j) 0.0)) 0.0
+    Float.abs (v - pi.getD j 0.0) ≤ 1e-9)
+
+def parseLambda (name : String) : Option Nat :=
+  if name.startsWith "lambda" then ((name.drop 6).toString.toNat?).bind (fun k => if k ≥ 1 && (name.drop 6).toString == toString k then some (k - 1) else none) else none
+
+def tmStep (s : St) (op : List String) (impl : Option (List String)) : St × String × String :=
+  match op with
+  | ["tm", k, kind, n] =>
+    match nat? n with
+    | none => (s, "bad-op", "-")
+    | some n =>
+      if kind == "auto" then (s.putTM k (.auto (AutoTM.build n)), "ok", "-")
+      else if kind == "full" then (s.putTM k (.full n none none none), "ok", "-")
+      else (s, "bad-op", "-")
+  | o :: k :: args =>
+    match s.getTM? k with
+    | none => (s, "no-object", "-")
+    | some (.auto m) =>
+      match o, args with
+      | "tmset", [name, v] =>
+        match Hex.float? v, parseLambda name with
+        | some v, some i =>
+          if i ≥ m.n then (s, "exc:notfound", "-") else
+          let old := m.lam.getD i 0.0
+          -- Parameter::setValue: nothing happens unless |v - old| > 0; then the constraint ]0,1[ is checked
+          if !(Float.abs (v - old) > 0) then (s.putTM k (.auto (m.setLambda i old)), "ok", "-")
+          else if !(v > 0.0 && v < 1.0) then (s, "exc:constraint", "-")
+          else (s.putTM k (.auto (m.setLambda i v)), "ok", "-")
+        | some _, none => (s, "exc:notfound", "-")
+        | none, _ => (s, "bad-op", "-")
+      | "tmpij", [] =>
+        let (m', p) := m.getPij
+        let verdict := match impl with
+          | some i => (match implFloats? i with
+            | some xs => if m.n < 2 then "-" else if stochasticRows m.n xs then "ok" else "FAIL:autocorr_row_stochastic"
+            | none => "FAIL:parse")
+          | none => "-"
+        (s.putTM k (.auto m'), hxs p.flatten, verdict)
+      | "tmPij", [i, j] =>
+        match nat? i, nat? j with
+        | some i, some j => (match m.lam[i]? with | some li => (s, hx (autoEntry m.n li i j), "-") | none => (s, "bad-index", "-"))
+        | _, _ => (s, "bad-op", "-")
+      | "tmeq", [] =>
+        let verdict := match impl with
+          | some i => (match implFloats? i with
+            | some xs => if m.n < 2 then "-" else
+                if stationaryOf m.n (autoMatrix m.n m.lam).flatten xs then "ok" else "FAIL:autocorr_stationary"
+            | none => "FAIL:parse")
+          | none => "-"
+        (s, hxs m.eq, verdict)
+      | "tmclone", [k2] => (s.putTM k2 (.auto m), "ok", "-")
+      | _, _ => (s, "bad-op", "-")
+    | some (.full n lastP seenPij seenEq) =>
+      -- not modelled: the implementation's answer is echoed and judged
+      let echo := match impl with | some i => " ".intercalate i | none => "unmodelled"
+      match o, args with
+      | "tmsetP", r =>
+        match floats? r with
+        | some a => (s.putTM k (.full n (some a) none none), echo, "-")
+        | none => (s, "bad-op", "-")
+      | "tmpij", [] =>
+        match impl with
+        | none => (s, echo, "-")
+        | some i =>
+          if isExc i then (s, echo, "-") else
+          match implFloats? i with
+          | none => (s, echo, "FAIL:parse")
+          | some xs =>
+            let v := if !stochasticRows n xs then "FAIL:full_matrix_row_stochastic"
+              else if (match seenPij with | some p => p != i | none => false) then "FAIL:transition_order_independent"
+              else if (match lastP with | some a => !((a.toList.zip xs).all (fun (x, y) => Float.abs (x - y) ≤ 1e-12)) | none => false) then "FAIL:full_matrix_set"
+              else "ok"
+            (s.putTM k (.full n lastP (some i) seenEq), echo, v)
+      | "tmeq", [] =>
+        match impl with
+        | none => (s, echo, "-")
+        | some i =>
+          if isExc i then (s, echo, "-") else
+          match implFloats? i with
+          | none => (s, echo, "FAIL:parse")
+          | some xs =>
+            let P : List Float := match lastP with | some a => a.toList | none => List.replicate (n * n) (1.0 / Float.ofNat n)
+            let v := if (match seenEq with | some p => p != i | none => false) then "FAIL:transition_order_independent"
+              else if !stationaryOf n P xs then "FAIL:full_stationary"
+              else "ok"
+            (s.putTM k (.full n lastP seenPij (some i)), echo, v)
+      | "tmclone", [k2] => (s.putTM k2 (.full n lastP seenPij seenEq), "ok", "-")
+      | _, _ => (s, echo, "-")
+  | _ => (s, "bad-op", "-")
+
 /-! ## parameters -/
 
 /-- `Parameter::setValue` with precision 0 (Parameter.cpp:55): the value is stored only when
@@ -400,6 +515,8 @@ def step (s : St) (op : List String) (impl : Option (List String)) : St × Strin
       let st := { s.stage with E := s.stage.E ++ a }
       ({ s with stage := st }, toString (st.E.size / (if st.n == 0 then 1 else st.n)), "-")
     | none => (s, "bad-op", "-")
+  | "tm" :: _ | "tmset" :: _ | "tmsetP" :: _ | "tmpij" :: _ | "tmPij" :: _ | "tmeq" :: _ | "tmclone" :: _ | "tmnames" :: _ =>
+    tmStep s op impl
   | "build" :: k :: algo :: wp :: r =>
     let t := s.stage
     if t.n == 0 || t.P.size != t.n * t.n || t.F.size != t.n || t.E.isEmpty || t.E.size % t.n != 0 then (s, "bad-stage", "-")
